@@ -1434,8 +1434,11 @@ def _normalise_labelled(out, get, form, absorb, msv, bond, linds, rinds, mn, tag
                         lshape=None, rshape=None):
     """-> (Res, list of label problems, list of returned tensors (data, inds, left_inds))"""
     m, n = mn
-    # tensor_split returns (left, s, right) only when ``absorb is None`` -- the documented alias 'U,s,VH' must behave the same
-    three = form == "full"
+    # (left, s, right) is returned when the singular values are part of the requested form: ``absorb=None``, its
+    # documented alias 'U,s,VH' and the values-only form 's' (whose two factors are None); every other form returns
+    # (left, right).  [the count for 's' used to be modelled as 2, which contradicted the sibling contract "form s
+    # returns the values": a pair (None, None) has no slot for them]
+    three = form in ("full", "s")
     if get is None:
         seq = tuple(out.tensors) if hasattr(out, "tensors") else tuple(out)
     else:
@@ -1496,8 +1499,11 @@ def _normalise_labelled(out, get, form, absorb, msv, bond, linds, rinds, mn, tag
             if msv:
                 if iS != (bl, br):
                     problems.append(f"values tensor labels {iS}, expected the two bonds {(bl, br)}")
-            elif iS != (bl,) or (br is not None and br != bl):
-                problems.append(f"values tensor labels {iS}, bonds {bl}, {br}")
+            else:
+                # the values carry the one new bond: the bond of whichever factor is present (form 's' has neither)
+                present = [b for b in (bl, br) if b is not None]
+                if len(iS) != 1 or any(iS != (b,) for b in present):
+                    problems.append(f"values tensor labels {iS}, bonds {bl}, {br}")
         if not msv and bl is not None and br is not None and bl != br:
             problems.append(f"two different bond labels {bl}, {br}")
         if msv and bl is not None and bl == br:
